@@ -98,6 +98,8 @@ func (r *rt) step(m *model, o Op, gen int8, prev []ent, prevValid, priorErr bool
 		ctr.ReplaceExisting++
 	case o.K == kRemove && m.r[o.N].on:
 		ctr.RemoveExisting++
+	case o.K == kRegister && m.r[o.N].on:
+		ctr.DupRegistrations++
 	case o.K == kRegister && p.isB(o.N):
 		ctr.ReRegistered++
 	}
@@ -132,7 +134,7 @@ func (r *rt) step(m *model, o Op, gen int8, prev []ent, prevValid, priorErr bool
 	if res.Kind, res.Detail = m2.check(p, order, ctr); res.Kind != "" {
 		return
 	}
-	if o.K == kReplace && m.r[o.N].on && prevValid {
+	if o.K == kReplace && m.r[o.N].on && !m.r[o.N].dup && prevValid {
 		ctr.ReplacePos++
 		if res.Kind, res.Detail = checkReplacePosition(p, o.N, prev, order); res.Kind != "" {
 			return
